@@ -80,19 +80,19 @@ func counts(check, tier string) (random, directors, enum int) {
 	switch check {
 	case "C01":
 		if q {
-			return 1400, 700, 0
+			return 2000, 1000, 0
 		}
-		return 20000, 10000, 0
+		return 30000, 15000, 0
 	case "C02":
 		if q {
-			return 1400, 700, 0
+			return 2000, 1000, 0
 		}
-		return 20000, 10000, 0
+		return 30000, 15000, 0
 	default: // C03
 		if q {
-			return 1000, 350, 448
+			return 1400, 500, 448
 		}
-		return 12000, 4000, 2 * len(enumScripts) * 7 * 4 * enumMaxK
+		return 16000, 6000, 2 * len(enumScripts) * 7 * 4 * enumMaxK
 	}
 }
 
